@@ -344,5 +344,100 @@ def execute(rec: Rec, lib, kind: str, settings: dict, *, grad: bool, nx: int = 3
     return res, exc
 
 
+# ----------------------------------------------------------------------------- isolation of one recorded case
+
+HARD_SECONDS = 10.0
+
+
+def _cpu_of(pid: int) -> float:
+    """CPU seconds (user + system) consumed so far by a live process and its reaped children."""
+    import os
+
+    try:
+        with open(f"/proc/{pid}/stat") as f:
+            fields = f.read().rsplit(")", 1)[1].split()
+        return sum(int(fields[i]) for i in (11, 12, 13, 14)) / os.sysconf("SC_CLK_TCK")
+    except (OSError, IndexError, ValueError):
+        return 0.0
+
+
+def isolated(fn, limit: float = HARD_SECONDS):
+    """Run fn() in a forked child and return ("ok", value) | ("error", text) | ("killed", cpu seconds) |
+    ("died", wait status).  The in-process watchdog of `execute` is a Python signal handler: it cannot run
+    while a compiled library loops without calling back into Python (NLopt's NEWUOA after a forced stop may
+    do so for minutes, or for ever).  The child is killed, with its own children, once it has consumed
+    `limit` seconds of CPU time (CPU time, not wall-clock time: the machine may be loaded); value must be
+    JSON-serialisable."""
+    import json
+    import os
+    import select
+
+    r, w = os.pipe()
+    pid = os.fork()
+    if pid == 0:
+        code = 0
+        try:
+            os.close(r)
+            os.setsid()
+            try:
+                payload = ("ok", fn())
+            except Exception as ex:  # noqa: BLE001
+                payload = ("error", f"{type(ex).__name__}: {str(ex)[:80]}")
+            with os.fdopen(w, "wb") as f:
+                f.write(json.dumps(payload).encode())
+        except BaseException:  # noqa: BLE001
+            code = 3
+        finally:
+            os._exit(code)
+    os.close(w)
+    chunks, verdict, status = [], None, None
+    try:
+        while True:
+            ready, _, _ = select.select([r], [], [], 0.2)
+            if ready:
+                b = os.read(r, 1 << 16)
+                if not b:
+                    break
+                chunks.append(b)
+                continue
+            if status is not None:
+                break                       # the child is gone and the pipe is drained
+            done, st = os.waitpid(pid, os.WNOHANG)
+            if done:
+                # a process left behind by the child (pool worker) may still hold the pipe: no end of file
+                status = st
+                continue
+            used = _cpu_of(pid)
+            if used > limit:
+                verdict = ("killed", round(used, 1))
+                break
+    finally:
+        os.close(r)
+        for kill, target in ((os.killpg, pid), (os.kill, pid)):     # the child and whatever it left behind
+            try:
+                kill(target, 9)
+            except OSError:
+                pass
+        if status is None:
+            _, status = os.waitpid(pid, 0)
+    if verdict is not None:
+        return verdict
+    if not chunks:
+        return ("died", status)
+    kind, value = json.loads(b"".join(chunks).decode())
+    return (kind, value)
+
+
+def unreturned_trace(tid: int, meta: dict, kind: str, exc: str, msg: str):
+    """The trace of an execution that never returned (killed by `isolated`) or took the process down: the
+    settings and the fact that execute() neither returned a result nor raised a user exception."""
+    head = dict(ev="exec", kind=kind, N=int(meta["N"]), reset=True, grad=False, useDb=True, storeJac=True,
+                stopIfNan=kind == "opt", maxTime=False, kkt=False, nx=3, samples=[], composite=False, obs=False,
+                sub=0, cur=0, len=0)
+    end = dict(ev="end", cause="Runaway", result=False, xopt=0, crashed=True, refused=False, userRaise=False,
+               exc=exc, excmsg=msg[:60], nni=1, nsl=1, cur=0, len=0)
+    return {"id": tid, "funcs": ["f"], "npts": 0, "events": [head, end], "meta": meta, "noorig": False}
+
+
 def trace_of(rec: Rec, tid: int, meta: dict):
     return {"id": tid, "funcs": list(rec.fnames), "npts": len(rec.coords), "events": rec.events, "meta": meta}
